@@ -26,7 +26,7 @@
 (*   Final turns the layout entries into "s" items (ch = separator class).   *)
 EXTENDS Maths
 
-It(t, ch, lo, hi, n) == [t |-> t, ch |-> ch, lo |-> lo, hi |-> hi, n |-> n]
+It(t, ch, lo, hi, n) == [t |-> t, ch |-> ch, lo |-> lo, hi |-> hi, n |-> n, lg |-> ""]    \* lg: language in force (set by Emit)
 Lay(t) == It(t, "", 0, 0, 0)
 
 Str(s) == s   \* documentation only: a TLA+ tuple of one-character strings
@@ -95,6 +95,18 @@ Conc(s) ==
     [] s = "vb"   -> <<BS,"v","e","r","b","|","a","%","|">>          \* \verb|a%|
     [] s = "vrb"  -> <<BS,"b","e","g","i","n","{","v","e","r","b","a","t","i","m","}",NL,"a","%",NL,BS,"e","n","d","{","v","e","r","b","a","t","i","m","}">>
     [] s = "vrb2" -> <<BS,"b","e","g","i","n"," ","{","v","e","r","b","a","t","i","m","}","a","%",BS,"e","n","d","{","v","e","r","b","a","t","i","m","}">>
+    \* languages (C12)
+    [] s = "babD" -> <<BS,"u","s","e","p","a","c","k","a","g","e","[","e","n","g","l","i","s","h",",","g","e","r","m","a","n","]","{","b","a","b","e","l","}">>
+    [] s = "selD" -> <<BS,"s","e","l","e","c","t","l","a","n","g","u","a","g","e","{","g","e","r","m","a","n","}">>
+    [] s = "selE" -> <<BS,"s","e","l","e","c","t","l","a","n","g","u","a","g","e","{","e","n","g","l","i","s","h","}">>
+    [] s = "selF" -> <<BS,"s","e","l","e","c","t","l","a","n","g","u","a","g","e","{","f","r","e","n","c","h","}">>
+    [] s = "flD" -> <<BS,"f","o","r","e","i","g","n","l","a","n","g","u","a","g","e","{","g","e","r","m","a","n","}","{">>
+    [] s = "flE" -> <<BS,"f","o","r","e","i","g","n","l","a","n","g","u","a","g","e","{","e","n","g","l","i","s","h","}","{">>
+    [] s = "flF" -> <<BS,"f","o","r","e","i","g","n","l","a","n","g","u","a","g","e","{","f","r","e","n","c","h","}","{">>
+    [] s = "olD" -> <<BS,"b","e","g","i","n","{","o","t","h","e","r","l","a","n","g","u","a","g","e","}","{","g","e","r","m","a","n","}">>
+    [] s = "eol" -> <<BS,"e","n","d","{","o","t","h","e","r","l","a","n","g","u","a","g","e","}">>
+    [] s = "olsF" -> <<BS,"b","e","g","i","n","{","o","t","h","e","r","l","a","n","g","u","a","g","e","*","}","{","f","r","e","n","c","h","}">>
+    [] s = "eols" -> <<BS,"e","n","d","{","o","t","h","e","r","l","a","n","g","u","a","g","e","*","}">>
     \* extraction (C18): a listed macro that is otherwise unknown; comments containing macros
     [] s = "xo"  -> <<BS,"x","f","o","o","{">>
     [] s = "cmf" -> <<"%",BS,"f","o","o","t","n","o","t","e","{","j","}",NL>>
@@ -161,6 +173,10 @@ OpenKind(s) ==     \* symbols that open a braced argument / group
   CASE s = "xo" -> "xo" [] s = "ob" -> "grp" [] s = "add" -> "arg" [] s = "fbx" -> "arg" [] s = "tc" -> "arg"
     [] s = "fn" -> "fn" [] s = "cap" -> "fn" [] s = "sec" -> "sec" [] s = "sub" -> "sec"
     [] s \in {"uB","uC","uD","uE","uF","uG"} -> "marg" [] s = "uCo" -> "mopt" [] s = "cto" -> "copt"
+LangSel == {"babD", "selD", "selE", "selF"}
+LangOpen == {"flD", "flE", "flF", "olD", "olsF"}
+LangOf(s) == CASE s \in {"babD", "selD", "flD", "olD"} -> "de-DE" [] s \in {"selE", "flE"} -> "en-GB" [] s \in {"selF", "flF", "olsF"} -> "fr"
+LangSyms == LangSel \cup LangOpen \cup {"eol", "eols"}
 FaultSyms == {"Fim","FimE","Fdm","FdmE","FeqE","FargE","FoptE","FvbE","FveE","Fsk","Facc","Flt"}
 EofFaults == {"FimE","FdmE","FeqE","FargE","FoptE","FvbE","FveE"}
 \* offset of the problem relative to the start of the symbol
@@ -193,7 +209,7 @@ EnvOf(s) == CASE s \in {"bi","ei"} -> "itemize" [] s \in {"be","ee"} -> "enumera
               [] s \in {"bu","eu"} -> "unk" [] s \in {"bl","el"} -> "lstlisting" [] s \in {"bm","em"} -> "minipage"
 
 AllSyms == Visible \cup ReplSyms \cup OpenSyms \cup BeginSyms \cup EndSyms \cup
-   {"sp","nl","tab","cm","lb","ix","uk","uk2","cb","skp","par","im","imp","ref","cite","skb","ske","q","fnq","it","vb","vrb","vrb2","ocb","ctc","rbk","up","uA","uBt","cmf","cmu"} \cup DefSyms \cup MathSyms \cup FaultSyms
+   {"sp","nl","tab","cm","lb","ix","uk","uk2","cb","skp","par","im","imp","ref","cite","skb","ske","q","fnq","it","vb","vrb","vrb2","ocb","ctc","rbk","up","uA","uBt","cmf","cmu"} \cup DefSyms \cup MathSyms \cup FaultSyms \cup LangSyms
 
 (***************************************************************************)
 (* Reference state                                                         *)
@@ -203,7 +219,7 @@ Frame(k, flow, start) == [k |-> k, flow |-> flow, start |-> start, has |-> FALSE
 
 St0 == [src |-> <<>>, ctx |-> <<>>, flows |-> << <<>> >>, spans |-> << <<0,0>> >>,
         unk |-> <<>>, nfml |-> 0, cw |-> FALSE, vis |-> FALSE, feat |-> {},
-        ls |-> "", mode |-> "normal", drop |-> {}, fault |-> <<>>, ended |-> FALSE, defs |-> [m \in MacroNames |-> "none"], fml |-> <<>>, eqs |-> <<>>, didx |-> 0]
+        lstack |-> <<"MAIN">>, ins |-> <<>>, ls |-> "", mode |-> "normal", drop |-> {}, fault |-> <<>>, ended |-> FALSE, defs |-> [m \in MacroNames |-> "none"], fml |-> <<>>, eqs |-> <<>>, didx |-> 0]
 
 Top(st) == st.ctx[Len(st.ctx)]
 CurFlow(st) == IF st.ctx = <<>> THEN 1 ELSE Top(st).flow
@@ -212,7 +228,8 @@ InSkip(st) == st.ctx # <<>> /\ Top(st).k \in {"skip", "rm"}
 InMath(st) == st.ctx # <<>> /\ Top(st).k \in {"math", "deq"}
 Pos0(st) == Len(st.src)          \* 0-based offset of the next character = 1-based position of the last one
 
-Emit(st, items) == [st EXCEPT !.flows[CurFlow(st)] = @ \o items]
+CurLang(st) == st.lstack[Len(st.lstack)]
+Emit(st, items) == [st EXCEPT !.flows[CurFlow(st)] = @ \o [i \in 1..Len(items) |-> [items[i] EXCEPT !.lg = CurLang(st)]]]
 CwSyms == {"uk", "uk2", "par", "it", "uA", "mal", "mnn"}        \* symbols whose text ends with a control word
 AddSrc(st, s) == [st EXCEPT !.src = @ \o Conc(s), !.cw = s \in CwSyms, !.vis = s \in Visible, !.ls = s]
 Feat(st, f) == [st EXCEPT !.feat = @ \cup {f}]
@@ -255,10 +272,17 @@ AllowedCtx(st, s) ==
   \* a tie or thin space on an otherwise blank line is white space for the line-removal pass
   \* (excluded from C02/C06, see the statement of C06): only directly after a visible character
   /\ s \in {"tie","thin"} => st.vis
-  /\ s = "cb" => st.ctx # <<>> /\ Top(st).k \in {"grp","arg","fn","sec","marg","hid"}
+  /\ s = "cb" => st.ctx # <<>> /\ Top(st).k \in {"grp","arg","fn","sec","marg","hid","lang"}
+  /\ s = "eol" => st.ctx # <<>> /\ Top(st).k = "lenv" /\ Top(st).nm = "olD"
+  /\ s = "eols" => st.ctx # <<>> /\ Top(st).k = "lenv" /\ Top(st).nm = "olsF"
+  \* \selectlanguage inside a footnote is local to the footnote in LaTeX; the statement does not say more: not generated
+  /\ s = "babD" => "babel-option" \notin st.feat          \* loading the package a second time has no effect
+  /\ s \in LangSel => ~InKind(st, "fn") /\ ~InKind(st, "sec") /\ ~InKind(st, "arg") /\ (s = "babD" => st.ctx = <<>>)
+  /\ s \in {"olD", "olsF"} => ~InKind(st, "sec") /\ ~InKind(st, "arg") /\ ~InKind(st, "fn") /\ ~InKind(st, "lang")
+  /\ s \in {"flD", "flE", "flF"} => ~InKind(st, "sec")
   \* (the full stop added to a heading is attached to the last token of the heading; if that is the closing $ of a
   \*  formula it maps into the formula - legitimate, but it would blur C10's "text of the formula")
-  /\ (s = "cb" /\ st.ctx # <<>> /\ Top(st).k = "sec") => st.ls \notin {"mc", "mc2"}
+  /\ (s = "cb" /\ st.ctx # <<>> /\ Top(st).k = "sec") => st.ls \notin {"mc", "mc2", "im", "imp"}
   /\ s \in FaultSyms => st.ctx = <<>> /\ st.fault = <<>>
   /\ (st.fault # <<>> /\ st.fault[1].sym = "Fsk") => s \notin {"skb", "ske"}     \* a later END comment would close the region
   \* extraction mode (C18): listed macros are \footnote and \xfoo; they are not put into arguments of other known macros
@@ -313,6 +337,17 @@ ExpandElems(defs, els, args, lo, hi, depth) ==
                                       ELSE ExpandElems(defs, BodyOf(defs[e[2]]), <<inner>>, lo, hi, depth - 1)
        IN this \o ExpandElems(defs, Tail(els), args, lo, hi, depth)
 
+\* end of a foreign-language insertion: pop the language, remember the insertion (C12, second sentence)
+CloseLang(st, s1, p1) ==
+  LET fr == Top(st)
+      fl == st.flows[fr.flow]
+      seg == SubSeq(fl, fr.mark + 1, Len(fl))
+      words == Len(SelectSeq([i \in 1..Len(seg) |-> IF seg[i].t = "c" /\ (i = 1 \/ seg[i-1].t # "c") THEN "w" ELSE "-"], LAMBDA x : x = "w"))
+      simple == \A i \in 1..Len(seg) : seg[i].t \in {"c", "ws"} /\ seg[i].lg = LangOf(fr.nm)
+      s2 == [s1 EXCEPT !.ctx = SubSeq(@, 1, Len(@)-1), !.lstack = SubSeq(@, 1, Len(@)-1)] IN
+  [Emit(s2, <<Lay("v")>>) EXCEPT !.ins = Append(@, [lo |-> fr.start+1, hi |-> p1, words |-> words, simple |-> simple, flow |-> fr.flow,
+                                                     lang |-> LangOf(fr.nm), outer |-> fr.last, depth |-> Len(st.lstack) - 1, kind |-> fr.k])]
+
 (***************************************************************************)
 (* One symbol                                                              *)
 (***************************************************************************)
@@ -331,7 +366,7 @@ Step(st, s) ==
           LET sh == InlineShape(fr.args)
               cls == IF sh.punct = "." THEN "phi." ELSE IF sh.punct = "," THEN "phi," ELSE "phi"
               s3 == IF InKind(s2, "sec") THEN Feat(s2, "maths-in-heading") ELSE s2 IN
-          NoteText(Emit([s3 EXCEPT !.fml = Append(@, [lo |-> fr.start+1, hi |-> p1, sp1 |-> sh.sp1, sp2 |-> sh.sp2, punct |-> sh.punct])],
+          NoteText(Emit([s3 EXCEPT !.fml = Append(@, [lo |-> fr.start+1, hi |-> p1, sp1 |-> sh.sp1, sp2 |-> sh.sp2, punct |-> sh.punct, lg |-> CurLang(st)])],
                         <<Lay("x"), It("g", cls, fr.start+1, p1, 1), Lay("x")>>), IF sh.punct = "" THEN "P" ELSE sh.punct)
        ELSE
           LET r == RefEq(fr.args, st.didx)
@@ -359,7 +394,8 @@ Step(st, s) ==
     [] s = "par" -> Emit(s1, <<It("g", "ws", p0+1, p1, 0), Lay("pb"), Lay("cw")>>)
     [] s \in {"im","imp"} ->
          \* one placeholder; the closing punctuation mark of the formula is kept
-         NoteText(Emit([(IF InKind(st, "sec") THEN Feat(s1, "maths-in-heading") ELSE s1) EXCEPT !.nfml = @ + 1],
+         NoteText(Emit([(IF InKind(st, "sec") THEN Feat(s1, "maths-in-heading") ELSE s1) EXCEPT !.nfml = @ + 1,
+                         !.fml = Append(@, [lo |-> p0+1, hi |-> p1, sp1 |-> FALSE, sp2 |-> FALSE, punct |-> IF s = "imp" THEN "." ELSE "", lg |-> CurLang(st)])],
                   <<Lay("x"), It("g", "phi", p0+1, p1, 1)>> \o
                   (IF s = "imp" THEN <<It("f", ".", p0+1, p1, 0)>> ELSE <<>>) \o <<Lay("x")>>),
                   IF s = "imp" THEN "." ELSE "P")
@@ -373,6 +409,14 @@ Step(st, s) ==
     [] s = "vrb2" -> NoteText(Emit(s1, <<It("g", "ws", p0+1, p1, 0), Lay("pb"), Lay("x"), It("c", "a", p0+18, p0+18, 0), It("c", "%", p0+19, p0+19, 0),
                                        Lay("x"), It("g", "ws", p0+1, p1, 0), Lay("pb")>>), "%")
     [] s \in {"cmf", "cmu"} -> Emit(s1, <<Lay("cm")>>)
+    \* language switches: \selectlanguage / babel option replace the language in force, \foreignlanguage and the
+    \* otherlanguage environments push it for their extent
+    [] s \in LangSel -> [Emit(IF s = "babD" THEN Feat(s1, "babel-option") ELSE s1, <<Lay("v")>>) EXCEPT !.lstack[Len(st.lstack)] = LangOf(s)]
+    [] s \in LangOpen ->
+         [Emit(s1, <<Lay("v")>>) EXCEPT !.lstack = Append(@, LangOf(s)),
+              !.ctx = Append(@, [Frame(IF s \in {"olD", "olsF"} THEN "lenv" ELSE "lang", CurFlow(st), p0)
+                                   EXCEPT !.nm = s, !.mark = Len(st.flows[CurFlow(st)]) + 1, !.last = CurLang(st)])]
+    [] s \in {"eol", "eols"} -> CloseLang(st, s1, p1)
     [] s \in FaultSyms ->
          \* one injected fault: the complete mark must appear, mapped to the place of the problem
          LET f == p0 + FaultOff(s)
@@ -431,6 +475,7 @@ Step(st, s) ==
          LET fr == Top(st)
              s2 == [s1 EXCEPT !.ctx = SubSeq(@, 1, Len(@)-1)] IN
          IF fr.k = "fn" THEN [Emit(s2, <<Lay("v")>>) EXCEPT !.spans[fr.flow] = <<fr.start+1, p1>>]
+         ELSE IF fr.k = "lang" THEN CloseLang(st, s1, p1)
          ELSE IF fr.k = "marg" THEN
             LET seg == SubSeq(st.flows[fr.flow], fr.mark + 1, Len(st.flows[fr.flow]))
                 d == st.defs[fr.nm]
@@ -552,7 +597,7 @@ Detached(flows, spans, i, drop) ==
 
 Final(st) == [src |-> st.src,
               items |-> (IF st.mode = "extr" THEN <<>> ELSE Seps(st.flows[1], Z0)) \o Detached(st.flows, st.spans, 2, st.drop),
-              fault |-> st.fault,
+              fault |-> st.fault, ins |-> st.ins,
               unk |-> st.unk,
               nflows |-> Len(st.flows), feat |-> st.feat, fml |-> st.fml, eqs |-> st.eqs]
 
